@@ -132,11 +132,8 @@ def run(ctx):
     ctx.sample({"tlc_schedule": rows[0]["sched"][:6]})
     n_m2, _ = judge(ctx, trace, "TLC schedule replay")
     drift(ctx, trace, "M2")
-    # a model-predicted panic that the real code does not show is drift (model too pessimistic), never a violation
-    predicted = sum(1 for r in rows if r["expect"])
-    panicked = sum(1 for r in res if r["panicked"])
-    if predicted != panicked:
-        ctx.notes.append("DRIFT: model predicted a panic on %d schedules, the real code panicked on %d" % (predicted, panicked))
+    # (whether model and code agree on WHICH steps panic is part of the TraceInitiator comparison above)
+    ctx.cov["schedules_ending_in_a_panic_on_the_real_code"] = sum(1 for r in res if r["panicked"])
     ctx.cov["model_panic_classes"] = sorted(model_classes)
 
     # 3. M3: seeded random runs, initiator and responder
